@@ -384,7 +384,13 @@ start:
 
 			switch v := instr.(type) {
 			case *ir.Convert:
-				s.set(v, s.get(v.X))
+				if b, ok := v.X.Type().Underlying().(*types.Basic); ok && b.Kind() == types.Uintptr {
+					// unsafe.Pointer(uintptr(0)) is nil; nothing is known
+					// about pointers made from integers.
+					s.set(v, ValueNilness{MaybeNil, MaybeNil})
+				} else {
+					s.set(v, s.get(v.X))
+				}
 			case *ir.SliceToArrayPointer:
 				// Go does not currently allow (*T)(s) where T is a type
 				// parameter with a type set consisting of array types, but it
